@@ -86,6 +86,10 @@ func init() {
 		{"C05", "constbalance", props.ConstBalance},
 		{"C10", "narrowcounter", props.NarrowCounters("gmw", "circuit")},
 		{"C06", "retained", props.RetainedCallerSlices("ot")},
+		{"C06", "extrows", props.OTExtensionCounts},
+		{"C06", "rsamask", props.RSAMaskDomain},
+		{"C02", "rsamask", props.RSAMaskDomain},
+		{"C02", "extrows", props.OTExtensionCounts},
 		{"C18", "retained", props.RetainedCallerSlices("ot", "sha2pc")},
 		{"C13", "hexwidth", props.HexWidthAgreement},
 		{"C17", "sharedtable", props.MemoSyncMaps("circuit", "ot", "p2p", "gmw", "compiler/ssa", "compiler/circuits", "compiler/mpa", "compiler/ast", "compiler")},
